@@ -90,6 +90,21 @@ impl Default for PoolCfg {
 /// Run all jobs; result i corresponds to job i.  A job whose worker died gets
 /// {"abort":true}, one that exceeded the time limit {"timeout":true}.
 pub fn run_jobs(jobs: Vec<Value>, cfg: &PoolCfg) -> Vec<Value> {
+    let mut results = run_jobs_once(jobs.clone(), cfg);
+    // a time limit that expires on a loaded machine says nothing about the code under test: every timed-out job is
+    // confirmed on its own, two at a time, with six times the limit (at least 120 s), before it is reported
+    let late: Vec<usize> = (0..results.len()).filter(|i| results[*i].get("timeout").is_some()).collect();
+    if !late.is_empty() {
+        let again = PoolCfg { workers: 2, batch: 1, timeout: (cfg.timeout * 6).max(Duration::from_secs(120)), envs: cfg.envs.clone() };
+        let rs = run_jobs_once(late.iter().map(|i| jobs[*i].clone()).collect(), &again);
+        for (i, r) in late.into_iter().zip(rs.into_iter()) {
+            results[i] = r;
+        }
+    }
+    results
+}
+
+fn run_jobs_once(jobs: Vec<Value>, cfg: &PoolCfg) -> Vec<Value> {
     let n = jobs.len();
     let results: Arc<Mutex<Vec<Option<Value>>>> = Arc::new(Mutex::new(vec![None; n]));
     let jobs = Arc::new(jobs);
